@@ -397,6 +397,22 @@ func checkC03(w *World, r *Report) {
 		}
 	})
 
+	r.Rule("R03.10", "a number ends where an operator name may begin: the characters LexNum collects include no letter with which an operator name starts (a, d, m, o) — `4div 2`, `1and 0` need no white space between the number and the operator (XPath 1.0 §3.7)", 1)
+	r.guard("R03.10", func() {
+		set := lexNumAlphabet(w)
+		toks, _ := spellingTokens(w, "exprLex", "xpath/grammars/expr")
+		var clash []string
+		for k := range toks {
+			if k[0] >= 'a' && k[0] <= 'z' && set.contains(int64(k[0])) {
+				clash = append(clash, k)
+			}
+		}
+		sort.Strings(clash)
+		fd, _ := w.FuncDecl(w.Method("xpath", "CommonLex", "LexNum"))
+		r.Check(len(clash) == 0, "R03.10", "CommonLex.LexNum stops before an operator name", fd.Pos(), "number alphabet "+set.String()+" holds no first letter of an operator name",
+			"a number token swallows the first letter of the operator name(s) {"+strings.Join(clash, ",")+"}: an expression that glues them to a number is rejected (or read as one bad number) although the spaced form is accepted")
+	})
+
 	r.Rule("R03.7", "whitespace between tokens is skipped and carries no state: the lexer's skip arm is exactly {SP,TAB,LF,CR} with no effect; isWhitespace is the same set; LexName's look-aheads go through whitespace-skipping helpers; precToken is written only by SaveTokenType", 6)
 	r.guard("R03.7", func() { c03Whitespace(w, r) })
 
